@@ -260,7 +260,7 @@ func (c *Ctx) loopItemGuard(f *ssa.Function, key string, g Guard) {
 			}
 			n++
 			at := p.Instrs[len(p.Instrs)-1]
-			ok, path := c.ge().guardedEdge(f, p, h, g, 1)
+			ok, path := c.ge().guardedEdge(f, p, h, g, 2)
 			if ok {
 				c.OK(key+" <= "+g.Name, w.ipos(at), "the loop only continues behind the check")
 			} else {
